@@ -43,7 +43,7 @@ def setup_worker():
 
 def plan(tier):
     if tier == "quick":
-        return [("timers", {}, 6000, 100)]
+        return [("timers", {}, 20000, 250)]
     return [("timers", {}, 400000, 500)]
 
 
